@@ -54,6 +54,14 @@ class T(object):
             n = self.i(1, 3)
             forms = ['from collections import OrderedDict', 'from collections import defaultdict as dd', 'from os import path', 'from os import *' if self.ind == 0 else 'from os import sep',
                      'from . import sibling', 'from .. import parent', 'from .pkg import thing', 'from collections import abc, deque', 'from os import getcwd', 'from . import other']
+            if self.p(0.3):
+                # the same module name at different relative levels, and the bare-dots forms: only identical (module, level) pairs may merge
+                mod = self.ch(['pkg', 'util', 'os', ''])
+                out = []
+                for k in range(self.i(2, 4)):
+                    lvl = self.i(0 if mod else 1, 2)
+                    out.append('from %s%s import name_%d' % ('.' * lvl, mod, k))
+                return self.emit('\n'.join(out))
             return self.emit('\n'.join(self.ch(forms) for _ in range(n)))
         if r == 4:
             self.sites.add('import-mixed')
